@@ -248,6 +248,8 @@ def T2.ofM3 (A : M3 K) : T2 K
 
 /-- 2D matrix: in-plane block and the `(2,2)` entry -/
 def _root_.TfelVerif.M3.plane (A : M3 K) : M3 K := ⟨A.a00, A.a01, 0, A.a10, A.a11, 0, 0, 0, A.a22⟩
+/-- 2D rotation matrix: in-plane block, the third axis is fixed -/
+def _root_.TfelVerif.M3.planeRot (R : M3 K) : M3 K := ⟨R.a00, R.a01, 0, R.a10, R.a11, 0, 0, 0, 1⟩
 /-- entries in row-major order -/
 def _root_.TfelVerif.M3.rowMajor (A : M3 K) : List K := [A.a00, A.a01, A.a02, A.a10, A.a11, A.a12, A.a20, A.a21, A.a22]
 
@@ -281,5 +283,13 @@ macro_rules
 definition to another one): `vecOf l I = l[I]`, `matOf p l I J = l[I * p + J]`. -/
 def vecOf {n : Nat} (l : List K) : Fin n → K := fun I => l.getD I.val 0
 def matOf {n : Nat} (p : Nat) (l : List K) : Fin n → Fin p → K := fun I J => l.getD (I.val * p + J.val) 0
+
+/- (performance only) forces the equation lemmas of the pattern-matching definitions of this file into
+its `.olean`, so that the property modules do not regenerate them in every theorem -/
+set_option linter.all false in
+example (x y : K) (h : x = y) : x = y := by
+  (try simp only [pad2_66, pad1_66, pad2_99, pad1_99, pad2_69, pad1_69, pad2_96, pad1_96, pad2_6, pad1_6, pad2_9,
+    pad1_9, mS2, mS1, mT2, mT1, T2.ofM3, T2.plane, vi, ti, pS1, pS2, pT1, pT2, w, iw, w2, iw2, shear, delta] at h)
+  exact h
 
 end TfelVerif.C02
